@@ -24,6 +24,7 @@ from .axioms import Axioms, pow_term
 from .seqabs import AbsSolver
 
 FEAS_TIMEOUT_MS = 1500
+QUICK_FEAS_MS = 250
 
 
 class PyRaise(Exception):
@@ -101,13 +102,13 @@ class Ctx:
             self.solver.push()
             self.pc = list(parent.pc)
             self.tfacts = list(parent.tfacts)
-            self.ghost = dict(parent.ghost)
+            self.ghost = {k: (list(v) if isinstance(v, list) else v) for k, v in parent.ghost.items()}
         else:
             self.ax = Axioms()
             self.ax.extra_rules = list((opts or {}).get("extra_rules", []))
             self.ax.fuel = (opts or {}).get("fuel", 1)
             self.ax_inst = []
-            self.solver = AbsSolver(FEAS_TIMEOUT_MS)
+            self.solver = AbsSolver((opts or {}).get("feas_ms", FEAS_TIMEOUT_MS))
         self.obligs = []
         self.notes = {"inlined": set(), "unrolled": {}, "native": set(), "assumed_contracts": set()}
         self.counters = {}
@@ -178,7 +179,7 @@ class Ctx:
             self.ax_inst.append(inst)
             self.solver.add_fact(inst)
 
-    def feasible(self, z):
+    def feasible(self, z, quick=False):
         self.feed_axioms(z)
         return self.solver.check_with(z) != z3.unsat
 
@@ -204,8 +205,9 @@ class Ctx:
         if self.pos < len(self.dec):
             d = self.dec[self.pos]
         else:
-            t = self.feasible(z)
-            f = self.feasible(z3.Not(z))
+            # branch pruning: a short budget is enough (an undecided side is simply explored)
+            t = self.feasible(z, quick=not loop_guard)
+            f = self.feasible(z3.Not(z), quick=not loop_guard)
             if t and f:
                 if loop_guard:
                     raise NeedInvariant("loop guard not decided by the path condition")
